@@ -52,11 +52,11 @@ func (hw *HapsimWatchers) Handlers() []HapsimHandler {
 }
 
 func (hw *HapsimWatchers) GetChangedObjects() *types.ChangedObjects { return hw.w.getChangedObjects() }
-func (hw *HapsimWatchers) QueueAdds() []bool                         { return hw.q.Adds }
+func (hw *HapsimWatchers) QueueAdds() []bool                        { return hw.q.Adds }
 
-func (h HapsimHandler) Type() client.Object      { return h.h.typ }
-func (h HapsimHandler) Resource() string         { return string(h.h.res) }
-func (h HapsimHandler) Full() bool               { return h.h.full }
+func (h HapsimHandler) Type() client.Object { return h.h.typ }
+func (h HapsimHandler) Resource() string    { return string(h.h.res) }
+func (h HapsimHandler) Full() bool          { return h.h.full }
 
 // Create / Update / Delete do what controller-runtime's EventHandler does:
 // every predicate must accept, then the handler runs. They return whether the
